@@ -108,7 +108,7 @@ def match_pattern(pat, sc, trace, b):
 def judge(ctx, pid, rejected, cross=()):
     for sc, b, trace in rejected:
         why = b["why"]
-        owner = pid if why in cross else why.split(".")[0]
+        owner = pid if (why in cross or why == "C14.internal_error_reported_to_on_error") else why.split(".")[0]
         brief = [{k: v for k, v in e.items() if k in ("ev", "t", "name", "kind", "cid", "outcome", "cls", "value", "status", "none", "dtype", "where", "n")}
                  for e in trace[max(0, b["at"] - 3):b["at"] + 1]]
         scd = {k: v for k, v in sc.items() if k not in ("tid",)}
@@ -395,6 +395,23 @@ def fam_keepalive(rng, tier):
                 ev = [(first_at, ("part", 1, "he", 0)), (3 * I * 1000 + 700, ("part", 0, "llo", 0)), (2 * I * 1000, ("part", 0, "!", 1))]
                 out.append({"tid": "ka%d" % n, "conns": [{"events": ev, "pong": lat}], "run": {"ping_interval": I, "ping_timeout": T},
                             "horizon": (9 * I + 3 * T) * 1000, "pattern": "pings_between_fragments"})
+    # a peer that falls silent in the middle of a frame (one byte of a header, half a payload): still a silent peer
+    for I, T in ((3, 1), (5, 2), (4, 3)):
+        for part in (b"\x81", b"\x82\x05ab", b"\x89"):
+            for k in (0, 1):
+                n += 1
+                # (the k-th ping goes out at (k + 1) * I; the partial frame follows it, nothing can follow a partial frame)
+                out.append({"tid": "ka%d" % n, "conns": [{"events": [(I * 1000 * (k + 1) + 500, ("partial", part))], "pong": {"stop_after": k, "latency": 0}}],
+                            "run": {"ping_interval": I, "ping_timeout": T}, "horizon": (8 * I + 6 * T) * 1000, "pattern": "silent_mid_frame"})
+    # a responsive peer whose frames arrive slowly: the two halves of a frame further apart than the timeout, between two
+    # pings that are both answered at once - never reported, the message is delivered when it is complete
+    for I, T in ((5, 2), (7, 3), (4, 1)):
+        for k in (1, 2, 5):
+            for first_at in (I * 1000 + 300, 2 * I * 1000 + 200):
+                n += 1
+                gap = (T + 1) * 1000
+                out.append({"tid": "ka%d" % n, "conns": [{"events": [(first_at, ("split", ("text", "slowly"), k, gap)), (3 * I * 1000, ("text", "after"))], "pong": 0}],
+                            "run": {"ping_interval": I, "ping_timeout": T}, "horizon": (8 * I + 6 * T) * 1000, "pattern": "slow_frame"})
     # interval without timeout: pings only; settings that must be refused
     for I in (1, 3):
         n += 1
